@@ -25,7 +25,7 @@ for v in ex.violations:
     if k in seen: continue
     seen.add(k)
     ok, info = R._replay_violation(mod, h, cfg, v)
-    print("VIOL", v["label"], v.get("site"), v.get("message", v.get("formula", ""))[:300], "\n   model", json.dumps(v["model"]["vars"]), "\n   reproduced:", ok, info)
+    print("VIOL", v["label"], v.get("site"), v.get("message", v.get("formula", ""))[:300], "\n   model", json.dumps(v["model"]["vars"]), "\n   reproduced:", ok, info, "\n   tb:", v.get("tb"))
 for pm in ex.path_models:
     rp = Replayer(pm["model"]).run(mod.HARNESSES[h], cfg)
     bad = [l for l, ok in rp.results if not ok]
